@@ -31,6 +31,12 @@ func decodeArgs(args string, stdin []byte) (out []DecodedIP, ok bool, err error)
 	if !strings.Contains(args, "ipinfos=") {
 		return nil, false, nil
 	}
+	// a panic of the decoder is a crashed plugin process: the runtime sees a failed plugin, nothing more
+	defer func() {
+		if r := recover(); r != nil {
+			out, ok, err = nil, true, fmt.Errorf("plugin crashed: panic in cni/ipam.Allocate: %v", r)
+		}
+	}()
 	vlans, results, err := ipam.Allocate("", &skel.CmdArgs{Args: args, StdinData: stdin})
 	if err != nil {
 		return nil, true, err
@@ -156,6 +162,9 @@ func (w *World) handleCNI(t *core.Task, r *core.Req) core.Resp {
 		}
 		if dec, ok, err := decodeArgs(inv.Args, inv.Stdin); ok {
 			if err != nil {
+				if strings.Contains(err.Error(), "plugin crashed") {
+					w.S.Stat("probe.plugin-decoder-panic")
+				}
 				return core.Resp{Code: 1, Msg: "100", A: []string{err.Error()}}
 			}
 			w.decoded = dec
@@ -172,7 +181,7 @@ func (w *World) handleCNI(t *core.Task, r *core.Req) core.Resp {
 
 // pluginFiles mimics the state a flannel-style plugin keeps per container (only where the GC is under test).
 func (w *World) pluginFiles(c *Container, inv *Invocation, add bool) {
-	if !w.prof.GC {
+	if !w.prof.GC && !w.prof.States {
 		return
 	}
 	flannel := gcDirs[0] + "/" + c.ID
